@@ -221,9 +221,16 @@ pub fn cmd_explore(opt: &HashMap<String, String>) -> i32 {
         let w16 = want(16);
         let w17 = want(17);
         let w13 = want(13);
-        let extra: Option<std::sync::Arc<dyn Fn(&Ctx, &Config, &[Op], &mut Stats) -> ExtraOut + Send + Sync>> = if w16 || w17 || w13 {
+        let w1 = want(1) && !w16;
+        let calpha = crate::faults::closure_alphabet(&u);
+        let extra: Option<std::sync::Arc<dyn Fn(&Ctx, &Config, &[Op], &mut Stats) -> ExtraOut + Send + Sync>> = if w16 || w17 || w13 || w1 {
             Some(std::sync::Arc::new(move |ctx: &Ctx, cfg: &Config, hist: &[Op], st: &mut Stats| {
                 let mut out = ExtraOut { viol: vec![], novel: vec![] };
+                if w1 {
+                    // the bound after a panic in a mutate closure / retain predicate (the states reached are not explored further)
+                    let o = crate::faults::fault_scan_kinds(ctx, cfg, hist, &calpha, &[Cb::MutPre, Cb::MutPost, Cb::Pred], st);
+                    out.viol.extend(o.viol.into_iter().filter(|x| x.rule == "C16.bound" || x.rule == "machinery"));
+                }
                 if w13 {
                     let o = crate::cap13::alloc_failure_scan(ctx, cfg, hist, st);
                     out.viol.extend(o.viol);
@@ -654,7 +661,7 @@ pub fn cmd_explore(opt: &HashMap<String, String>) -> i32 {
             *stats.classes.entry(c).or_insert(0) += 1;
         }
         let cfg = Config { hk: HK::Const, cap: None, limit: usize::MAX };
-        let root = Root { cfg, prefix: vec![], label: "9 instantiations of LruCache<K, V, S> x {constant, spread} hasher x {unbounded, tight} start".into() };
+        let root = Root { cfg, prefix: vec![], label: "10 instantiations of LruCache<K, V, S> x {constant, spread} hasher x {unbounded, tight} start".into() };
         let violations = r
             .violations
             .into_iter()
@@ -677,7 +684,7 @@ pub fn cmd_explore(opt: &HashMap<String, String>) -> i32 {
             fault_states: 0,
             known: Default::default(),
         };
-        phases.push(Phase { name: format!("instantiation variants: all operation sequences <= {depth} over ~60 operations (incl. clone_from, failing reservations, forgotten drain) for 9 instantiations (plain data with varying size estimate and non-bitwise Clone, String/&str, zero-sized key, zero-sized value, 32-byte aligned value, 200-byte inline value, default hasher, drop glue on one side); sequences of 1 and of <= 2 operations are judged in passes of their own first"), result, roots: vec![root], alpha_len: 60, nkeys, fault_props: 0, u: u.clone() });
+        phases.push(Phase { name: format!("instantiation variants: all operation sequences <= {depth} over ~60 operations (incl. clone_from, failing reservations, forgotten drain) for 10 instantiations (plain data with varying size estimate and non-bitwise Clone, String/&str, PathBuf / &Path in another spelling, zero-sized key, zero-sized value, 32-byte aligned value, 200-byte inline value, default hasher, drop glue on one side); sequences of 1 and of <= 2 operations are judged in passes of their own first"), result, roots: vec![root], alpha_len: 60, nkeys, fault_props: 0, u: u.clone() });
     }
 
     // C16 on the other instantiations (C05: the order of what remains after a caught panic)
